@@ -49,6 +49,40 @@ theorem take_removeKey {α} (key : α → Nat) (l : List α) (x k : Nat) (hx : x
           simp only [List.take_succ_cons, List.map_cons]
           rw [this, List.erase_cons_tail (by simpa using ha)]
 
+
+/-- … and the entries behind the first `k` are not touched -/
+theorem drop_removeKey {α} (key : α → Nat) (l : List α) (x k : Nat) (hx : x ∈ (l.take k).map key) :
+    (removeKey key l x).drop (k - 1) = l.drop k := by
+  induction l generalizing k with
+  | nil => simp at hx
+  | cons a as ih =>
+    cases k with
+    | zero => simp at hx
+    | succ k' =>
+      by_cases ha : key a = x
+      · rw [removeKey_cons_eq key a as x ha]
+        simp
+      · rw [removeKey_cons_ne key a as x ha]
+        have hx' : x ∈ (as.take k').map key := by
+          simp only [List.take_succ_cons, List.map_cons, List.mem_cons] at hx
+          rcases hx with h | h
+          · exact absurd h.symm ha
+          · exact h
+        cases k' with
+        | zero => simp at hx'
+        | succ k'' =>
+          have := ih (k'' + 1) hx'
+          simp only [Nat.add_sub_cancel] at this ⊢
+          simp only [List.drop_succ_cons]
+          exact this
+
+theorem drop_pyInsert {α} (l : List α) (n : Nat) (a : α) (h : n ≤ l.length) :
+    (pyInsert l n a).drop n = a :: l.drop n := by
+  unfold pyInsert
+  have : (l.take n).length = n := by simp; omega
+  rw [List.drop_append, this, List.drop_eq_nil_of_le (by omega)]
+  simp
+
 theorem removeKey_length {α} (key : α → Nat) (l : List α) (x : Nat) (hx : x ∈ l.map key) :
     (removeKey key l x).length + 1 = l.length := by
   induction l with
